@@ -449,6 +449,17 @@ class Check:
                 "forbidden": forb, "obligations": nob, "discharged": ndis,
                 "log_tail": (b["log"] if relevant and relevant != [f"Props/{self.prop}.v"] else out)[-4000:],
             }
+        if self.tier == "thorough" and ok:
+            # independent re-check of the compiled theory and everything it depends on
+            rcq, outq = run(["timeout", "1500", "coqchk", "-silent", "-o", "-Q", ".", "PG", f"PG.Props.{self.prop}"],
+                            cwd=COQ, timeout=1600)
+            m = re.search(r"\* Axioms:(.*?)\n\s*\n\* Constants/Inductives relying on type-in-type", outq, re.S)
+            ax = " ".join(m.group(1).split()) if m else "?"
+            self.coverage["coqchk"] = {"rc": rcq, "axioms": ax, "tail": outq[-600:] if rcq else ""}
+            if rcq != 0:
+                self.proof_ok = ok = False
+                self.proof_failure = {"failed_files": [], "relevant_failed_files": [f"coqchk PG.Props.{self.prop}"],
+                                      "forbidden": [], "log_tail": outq[-3000:]}
         tb = list(TRUSTED_BASE_COMMON)
         tb.append("Print Assumptions for Props/%s.v: %d theorem(s) 'Closed under the global context'; axioms: %s"
                   % (self.prop, closed, ", ".join(axioms) if axioms else "none"))
